@@ -745,6 +745,11 @@ func (t *tcase) afterUpload(channel, key string, seen *pb.ActionResult, w string
 		if !valid {
 			t.fail(channel + ": a malformed ActionResult was accepted")
 		}
+		// gRPC stores the inlined blobs first: bytes that contradict the digest beside them —
+		// the empty blob's digest included — must make the upload fail
+		if grpcPath && valid && !consistent(seen) {
+			t.fail(channel + ": an upload whose inline contents contradict their digest was accepted")
+		}
 	} else {
 		t.rep.Count("upload.rejected")
 		t.nontriv = true
@@ -1100,12 +1105,13 @@ func (t *tcase) grpcGet(key *pb.Digest, rq inlineReq, reqKind int) {
 		return
 	}
 	if emptyDigestAnomaly(stored) {
-		// inline bytes declared with the empty blob's digest: accepted by UpdateActionResult (disk.Put
-		// short-cuts that digest without reading the bytes) and dropped by a non-inlining read.
-		// Counted; reported as an oracle failure only when the driver is run with the extra argument strict-empty-digest.
-		t.rep.Count("get.hit.empty-digest-anomaly")
+		// only an HTTP PUT can have stored this (it never looks at inlined blobs; the gRPC path is
+		// covered by the oracle in afterUpload).  A non-inlining read still drops such bytes:
+		// maybeInline's Contains check short-cuts the empty digest.  Counted; an oracle failure
+		// only when the driver is run with the extra argument strict-empty-digest.
+		t.rep.Count("get.hit.empty-digest-inline-via-http")
 		if strictEmptyDigest && !proto.Equal(norm(res), norm(stored)) {
-			t.fail("inline contents declared with the empty-blob digest were accepted and a later hit dropped them (bytes neither returned nor in the CAS)")
+			t.fail("inline contents declared with the empty-blob digest, stored through HTTP PUT, were dropped by a later hit (bytes neither returned nor in the CAS)")
 		}
 		return
 	}
